@@ -959,7 +959,10 @@ func runC16(c *CaseCtx) (res CaseResult) {
 		}
 		if r.Intn(2) == 0 {
 			pos := r.Intn(len(calls) + 1)
-			calls = append(calls[:pos:pos], append([]am.Arg{am.Named(pick(r, names), nil), am.Typed(nil)}, calls[pos:]...)...)
+			nm := pick(r, names)
+			// nil values through all four constructors (with and without a
+			// subtype): each of them is ignored
+			calls = append(calls[:pos:pos], append([]am.Arg{am.Named(nm, nil), am.Typed(nil), am.NamedSubtype(nm, nil, "s"), am.TypedSubtype(nil, "s"), am.NamedSubtype("", nil, "")}, calls[pos:]...)...)
 		}
 		f, err := am.NewFunc(fn.Interface(), defs...)
 		if err != nil {
